@@ -47,6 +47,7 @@ type tileEvent struct {
 	N        int64  `json:"n"`
 	W        int    `json:"w"`
 	Req      string `json:"req"`
+	Reqs     []string `json:"reqs"` // every request made for the tile (the server answers the first one of some tiles with a 503)
 	Tlog     string `json:"tlog"`
 	Parsed   bool   `json:"parsed"`
 	From     uint64 `json:"from"`
@@ -113,10 +114,19 @@ func tileMain(args []string) error {
 	// ---- paths ----
 	var mu sync.Mutex
 	var lastPath string
+	var allPaths []string // every request made for the tile in hand
+	failOnce := false    // the server's answer class for the tile in hand: it answers the first request with a 503 (a transient failure), later ones normally
 	srv := httptest.NewServer(http.HandlerFunc(func(w http.ResponseWriter, r *http.Request) {
 		mu.Lock()
 		lastPath = r.URL.Path
+		allPaths = append(allPaths, r.URL.Path)
+		fail := failOnce
+		failOnce = false
 		mu.Unlock()
+		if fail {
+			http.Error(w, "try again", http.StatusServiceUnavailable)
+			return
+		}
 		w.Write(make([]byte, 32))
 	}))
 	defer srv.Close()
@@ -138,12 +148,15 @@ func tileMain(args []string) error {
 				return err
 			}
 			t := tlog.Tile{H: tv.H, L: tv.L, N: tv.N, W: tv.W}
-			lastPath = ""
+			mu.Lock()
+			lastPath, allPaths, failOnce = "", nil, k%3 == 1
+			mu.Unlock()
 			_, _ = shimReadTiles(sdb, []tlog.Tile{t})
 			mu.Lock()
 			req := lastPath
+			reqs := append([]string{}, allPaths...)
 			mu.Unlock()
-			ev := tileEvent{E: "tile.path", Run: "paths", K: k, H: tv.H, L: tv.L, N: tv.N, W: tv.W, Req: req, Tlog: t.Path()}
+			ev := tileEvent{E: "tile.path", Run: "paths", K: k, H: tv.H, L: tv.L, N: tv.N, W: tv.W, Req: req, Reqs: reqs, Tlog: t.Path()}
 			if len(req) > 0 {
 				pt, perr := tlog.ParseTilePath(req[1:])
 				ev.Parsed = perr == nil && pt == t
@@ -270,7 +283,7 @@ func tileMain(args []string) error {
 				ferr := feed(ctx, lc, rw, ts.Client(), 0)
 				cancel()
 				r2 := l.Trees[0].Root(p.to)
-				ev := tileEvent{E: "tile.proof", Run: *kind + "/" + tag, From: p.from, To: p.to}
+				ev := tileEvent{E: "tile.proof", Reqs: []string{}, Run: *kind + "/" + tag, From: p.from, To: p.to}
 				rw.mu.Lock()
 				if ferr == nil && rw.n == 1 {
 					ev.PfLen = len(rw.proof)
@@ -323,7 +336,7 @@ func tileMain(args []string) error {
 				okSoFar := got && e0 == nil
 				for j := 1; j < len(sizes); j++ {
 					from, to := sizes[j-1], sizes[j]
-					ev := tileEvent{E: "tile.proof", Run: fmt.Sprintf("%s/%s/chain%d", *kind, tag, ci), From: from, To: to}
+					ev := tileEvent{E: "tile.proof", Reqs: []string{}, Run: fmt.Sprintf("%s/%s/chain%d", *kind, tag, ci), From: from, To: to}
 					if okSoFar {
 						sl.Publish(0, to)
 						got, old, pf, e := waitFor(to)
